@@ -73,7 +73,7 @@ func (e *Exec) call(fr *frame, ci ssa.CallInstruction, st *State, k func(*State,
 		k(st, res)
 		return
 	}
-	if sp := e.specs.Lookup(name); sp != nil && !sp.Inline {
+	if sp := e.specs.Lookup(name); sp != nil && !sp.Inline && !(e.forceInline[name] && len(callee.Blocks) > 0 && callee != fr.fn && e.inlineDepth < maxInlineDepth) {
 		res := e.applyContract(fr, st, ci, callee, sp, args, rt)
 		k(st, res)
 		return
